@@ -55,6 +55,9 @@ func writeEvidence(p *PropDef, tier string, master uint64, agg *WorkerResult, ha
 		"workers":                workers,
 		"violation_details":      vio,
 	}
+	if determinismEvidence != nil {
+		cov["determinism_sample"] = determinismEvidence
+	}
 	if raceEvidence != nil {
 		cov["race_supplement"] = raceEvidence
 	}
